@@ -254,3 +254,51 @@ Fixpoint all_admitted_own (v : variant) (st : wstate) (ops : list wop) : bool :=
       | _ => true
       end && all_admitted_own v s1 r
   end.
+
+(* ---- history-level bookkeeping used to STATE the property (never read by step) ---- *)
+
+(* tokens granted along a run: (token, profile of the instance whose Open returned it) *)
+Fixpoint grants_run (v : variant) (st : wstate) (ops : list wop) : list (tok * user) :=
+  match ops with
+  | [] => []
+  | o :: r =>
+      let '(s1, x) := step v st o in
+      match o, x with
+      | WOpen i _ _, RTok t =>
+          match inst_user st i with Some u => [(t, u)] | None => [] end
+      | _, _ => []
+      end ++ grants_run v s1 r
+  end.
+
+(* content rows written along a run: (profile of the instance used, (id, value)) for every admitted Add *)
+Fixpoint adds_run (v : variant) (st : wstate) (ops : list wop) : list (user * (cid * N)) :=
+  match ops with
+  | [] => []
+  | o :: r =>
+      let '(s1, x) := step v st o in
+      match o, x with
+      | WOp i _ (KAdd c n), RDone =>
+          match inst_user st i with Some u => [(u, (c, n))] | None => [] end
+      | _, _ => []
+      end ++ adds_run v s1 r
+  end.
+
+(* keys created along a run: (key number, profile of the instance through which CreateKeyPair was called) *)
+Fixpoint keyops_run (v : variant) (st : wstate) (ops : list wop) : list (N * user) :=
+  match ops with
+  | [] => []
+  | o :: r =>
+      let '(s1, x) := step v st o in
+      match o, x with
+      | WOp i _ KCreateKey, RKey k =>
+          match inst_user st i with Some u => [(k, u)] | None => [] end
+      | _, _ => []
+      end ++ keyops_run v s1 r
+  end.
+
+Definition pair_in (l : list (N * N)) (a b : N) : bool := existsb (fun p => (fst p =? a) && (snd p =? b)) l.
+
+(* every key of the final state is wrapped for the profile through whose instance it was created *)
+Definition keys_own (v : variant) (ops : list wop) : bool :=
+  let st := fst (run v init ops) in
+  forallb (fun p => pair_in (keyops_run v init ops) (fst p) (snd p)) (keys st).
